@@ -7,3 +7,4 @@ open Emboss.View
 #print axioms C20_copy_overlap
 #print axioms C20_copy_dest_ok_partial
 #print axioms C20_equals_ignores_padding_partial
+#print axioms C20_copy_dest_equals_src_partial
